@@ -2,6 +2,7 @@ package c17
 
 import (
 	"fmt"
+	"regexp"
 	"sort"
 	"strings"
 
@@ -33,7 +34,11 @@ func stmtKind(s string) string {
 	case "PRAGMA":
 		return "PRAGMA " + strings.ToLower(strings.TrimRight(up(1), "=;"))
 	case "INSERT":
-		return "INSERT " + strings.Trim(up(2), "`\"")
+		if t := strings.ToLower(strings.Trim(up(2), "`\"")); strings.HasPrefix(t, "new_") {
+			return "INSERT (copy rows of a table rebuild)"
+		} else {
+			return "INSERT " + t
+		}
 	case "UPDATE":
 		return "UPDATE " + strings.Trim(up(1), "`\"")
 	case "RENAME":
@@ -159,4 +164,19 @@ func observe(p *migrate.Plan) (planObs, error) {
 		o.Sources = append(o.Sources, sourceKind(c.Source))
 	}
 	return o, nil
+}
+
+var (
+	reNamedObj = regexp.MustCompile(`\b(index|table|column|view|trigger) \S+ (already exists)`)
+	reNoSuch   = regexp.MustCompile(`(no such (?:index|table|column|view|trigger)): .*$`)
+	reDupCol   = regexp.MustCompile(`(duplicate column name): .*$`)
+)
+
+// errClass reduces an engine error to its class (no object names, literals or numbers).
+func errClass(err string, base func(string) string) string {
+	s := base(err)
+	s = reNamedObj.ReplaceAllString(s, "$1 ? $2")
+	s = reNoSuch.ReplaceAllString(s, "$1")
+	s = reDupCol.ReplaceAllString(s, "$1")
+	return s
 }
